@@ -138,6 +138,8 @@ PROPS = {
         level='other',
         contracts=[],
         functions=[],
+        trace_mode=True,
+        case_functions=[dict(module='vf.contracts.traces', key='collective traces')],
         bounded=[dict(module='vf.rt.bounded_sync', prop='C06',
                       bound='route maps of production and seeded random layout sets (incl. all six 3-D orderings) compared across '
                             'interpreter hash seeds; handler construction, all layout changes, getMin/getMax (whole grid and fixed-index '
